@@ -57,6 +57,9 @@ pub enum Action {
     /// `base` with the given vault of the given bank replaced, in every account list, by a token
     /// account of the same mint that belongs to user 1 (an adversarial but well-typed account list)
     WithVaultSwap { base: Box<Action>, bank: usize, kind: u8 },
+    /// `base` (a deposit, withdrawal, borrow or repayment) inside a flash-loan bracket of the acting account:
+    /// one transaction [start_flashloan, base, end_flashloan]
+    InFlashloan { base: Box<Action> },
     CloseAccount { u: usize },
     /// close the user's *original* account (after a transfer it is the migrated-away, disabled one)
     CloseOriginal { u: usize },
@@ -245,7 +248,7 @@ pub fn user_ix(w: &World, s: &Store, a: &Action, signer: Pubkey) -> Option<Ix> {
         Action::CloseOriginal { u } => ix::account_close(w.users[*u].account, signer, w.payer),
         Action::CloseBank { b } => ix::close_bank(g, w.banks[*b].key, signer),
         Action::Freeze { u, on } => ix::set_account_freeze(g, acct(*u), signer, *on),
-        Action::Advance { .. } | Action::AdvanceStale { .. } | Action::SetPrice { .. } | Action::Receivership { .. } => return None,
+        Action::Advance { .. } | Action::AdvanceStale { .. } | Action::SetPrice { .. } | Action::Receivership { .. } | Action::InFlashloan { .. } => return None,
     })
 }
 
@@ -254,7 +257,7 @@ pub fn extra_signers(w: &World, s: &Store, a: &Action) -> Vec<Pubkey> {
     match a {
         Action::Transfer { u } => vec![w.payer, next_account_key(&cur_account(w, s, *u))],
         Action::TransferPda { .. } => vec![w.payer],
-        Action::WithVaultSwap { base, .. } => extra_signers(w, s, base),
+        Action::WithVaultSwap { base, .. } | Action::InFlashloan { base } => extra_signers(w, s, base),
         Action::CloseAccount { .. } | Action::CloseOriginal { .. } => vec![w.payer],
         _ => vec![],
     }
@@ -271,7 +274,7 @@ pub fn default_signer(w: &World, a: &Action) -> Option<Pubkey> {
         Action::Accrue { .. } | Action::CollectFees { .. } | Action::PulsePriceCache { .. } => w.payer,
         Action::TokenlessRepay { .. } | Action::Purge { .. } | Action::ForceTokenlessComplete { .. } => w.roles.risk,
         Action::Transfer { u } | Action::TransferPda { u } | Action::CloseAccount { u } | Action::CloseOriginal { u } => w.users[*u].authority,
-        Action::WithVaultSwap { base, .. } => return default_signer(w, base),
+        Action::WithVaultSwap { base, .. } | Action::InFlashloan { base } => return default_signer(w, base),
         Action::CloseBank { .. } | Action::Freeze { .. } | Action::Retag { .. } => w.roles.admin,
         _ => return None,
     })
@@ -359,6 +362,31 @@ pub fn apply(w: &World, s: &mut Store, a: &Action) -> StepResult {
         Action::Receivership { .. } => {
             let r = crate::svm::process_tx(s, &receivership_tx(w, s, a));
             StepResult { code: r.code(), committed: r.ok() }
+        }
+        Action::InFlashloan { base } => {
+            let (u, b) = match base.as_ref() {
+                Action::Deposit { u, b, .. } | Action::Withdraw { u, b, .. } | Action::Borrow { u, b, .. } | Action::Repay { u, b, .. } => (*u, *b),
+                _ => return StepResult { code: crate::svm::ERR_UNSUPPORTED_CPI, committed: false },
+            };
+            let signer = default_signer(w, base).unwrap();
+            let acct = cur_account(w, s, u);
+            let Some(i) = user_ix(w, s, base, signer) else { return StepResult { code: crate::svm::ERR_UNSUPPORTED_CPI, committed: false } };
+            // the end instruction carries the risk accounts as they look afterwards: with the base's bank added (a position
+            // was opened), as they are, or without it (the position was closed) - the first layout that commits is taken
+            let bkey = w.banks[b].key;
+            let layouts = [w.risk_metas(s, &acct, Some(bkey), None), w.risk_metas(s, &acct, None, None), w.risk_metas(s, &acct, None, Some(bkey))];
+            let mut last = StepResult { code: 0, committed: false };
+            for rem in layouts {
+                let tx = Tx::new(vec![ix::start_flashloan(acct, signer, 2), i.clone(), ix::end_flashloan(acct, signer, rem)], &[signer]);
+                let mut t = s.clone();
+                let r = crate::svm::process_tx(&mut t, &tx);
+                if r.ok() {
+                    *s = t;
+                    return StepResult { code: 0, committed: true };
+                }
+                last = StepResult { code: r.code(), committed: false };
+            }
+            last
         }
         Action::TokenlessRepay { u, .. } => {
             // the risk admin acts on someone else's account inside a deleverage bracket
